@@ -191,13 +191,19 @@ def run(pid, tier):
     # reserved secret values are left alone by the secret stage
     try:
         fa = AF.FileAnonymizer(anon_pwd=True, anon_ip=False, salt="s", reserved_words=["MyCorpkit", "plain"])
-        lines = ["password interface", "snmp-server community description", "enable secret MyCorpkit", 'key "plain"', "username bob password permit"]
+        import secretgen as SG
+        # (the $9$ lines carry reserved words as their plaintext: seeing them must not make the words secrets)
+        lines = ['secret "%s"' % SG.j9_encode("interface", "Q"), "tacacs-server key %s" % SG.j9_encode("MyCorpkit", "i"),
+                 "password interface", "snmp-server community description", "enable secret MyCorpkit", 'key "plain"', "username bob password permit",
+                 "password interface", "enable secret MyCorpkit"]
         buf = io.StringIO()
         fa.anonymize_io(io.StringIO("\n".join(lines) + "\n"), buf)
         outs = buf.getvalue().split("\n")[:-1]
         ev = [{"ev": "cfg", "words": [], "reserved": [cps(w) for w in ["interface", "description", "MyCorpkit", "plain", "permit"]], "clauses": CLAUSES}]
         texts = [None]
         for ln, o in zip(lines, outs):
+            if "$9$" in ln:
+                continue          # those secrets are replaced, of course
             ev.append({"ev": "line", "in": cps(ln), "out": cps(o)})
             texts.append(("secret-stage", "%r -> %r" % (ln, o)))
         traces.append(ev)
